@@ -86,6 +86,24 @@ def run_property(pid, tier, seed):
     run_all(obls)
     ded = [o for o in obls if not o.bounded]
     bnd = [o for o in obls if o.bounded]
+    # Escalation: when part of the code left the verifier's subset (undecided deductive obligations) and nothing is refuted
+    # yet, the verdict rests on the bounded stand-ins alone -- so they are re-run with the THOROUGH tier's bounds (more
+    # programs, longer histories, longer strings) before the property is reported as held on everything explored.
+    if tier == "quick" and os.environ.get("VERIF_NO_ESCALATION") != "1" and any(o.status == UNDECIDED for o in ded) \
+            and not any(o.status == REFUTED for o in obls):
+        try:
+            ctx2 = Ctx("thorough", seed + 7)
+            ctx2._reg = ctx._reg
+            deep = [o for o in prop.obligations(ctx2) if o.bounded and "lifecycle" not in o.id]      # (4-step histories take minutes; the 3-step ones ran)
+            seen2 = set()
+            deep = [o for o in deep if not (o.id in seen2 or seen2.add(o.id))]
+            run_all(deep)
+            byid = {o.id: o for o in deep}
+            bnd = [byid.get(o.id, o) if not (o.id in byid and byid[o.id].status == ERROR) else o for o in bnd]
+            obls = ded + bnd
+            ctx.notes.append("undecided obligations on this tree: %d bounded stand-in(s) re-run with the thorough tier's bounds" % len(deep))
+        except Exception:
+            ctx.notes.append("escalation of the bounded stand-ins failed: %s" % traceback.format_exc()[-300:])
     # canaries: the machinery must notice deliberate breakage of the extracted code (in memory only)
     canary_res = []
     checker_defect = False
